@@ -88,9 +88,30 @@ StatSub(s, v, r) == [g \in Groups |-> IF g \in GroupsOf(RoleOf(v)) THEN SubOne(s
 StakeEqual(a, b) == a.stk = b.stk /\ a.tok = b.tok /\ a.on = b.on
 StatMove(s, v, old, new) == IF StakeEqual(new, old) THEN s ELSE StatAdd(StatSub(s, v, old), v, new)
 
-Init == /\ vo = [v \in Vals |-> NoVal] /\ stat = ZeroStat /\ index = {} /\ tix = {} /\ dirty = {}
-        /\ acct = [a \in Accts |-> [dbal |-> 0, to |-> {}]] /\ pend = {} /\ blobs = {{}}
-        /\ vj = <<>> /\ aj = <<>> /\ revs = <<>> /\ nextId = 0 /\ failed = FALSE /\ hist = <<>>
+\* Alphabet "deleg3" starts from a populated state: every validator created with 15 LU, account 1 delegating 7 LU to each of
+\* them, transaction finalised.  The prelude that produces it is the beginning of hist, so the driver (and the conformance
+\* spec, from the plain initial state) simply replay it.
+SetToSeq(S) == LET RECURSIVE F(_) F(T) == IF T = {} THEN <<>> ELSE LET x == CHOOSE y \in T : \A z \in T : y <= z IN <<x>> \o F(T \ {x}) IN F(S)
+Seeded == Alpha = "deleg3"
+Prelude == [i \in 1..Cardinality(Vals) |-> [op |-> "Create", v |-> SetToSeq(Vals)[i], a |-> 0, d |-> 15, id |-> 0, on |-> FALSE]]
+           \o [i \in 1..Cardinality(Vals) |-> [op |-> "Delegate", v |-> SetToSeq(Vals)[i], a |-> 1, d |-> 7, id |-> 0, on |-> FALSE]]
+           \o <<[op |-> "Finalise", v |-> 0, a |-> 0, d |-> 0, id |-> 0, on |-> FALSE]>>
+SeedVal == [NoVal EXCEPT !.mem = "live", !.st = 15, !.ss = 15 \div Unit, !.tok = 22, !.stk = 15 \div Unit,
+                         !.dl = [a \in Accts |-> IF a = 1 THEN [t |-> 7, s |-> 7 \div Unit] ELSE [t |-> 0, s |-> 0]]]
+RECURSIVE SeedStat(_, _)
+SeedStat(s, S) == IF S = {} THEN s
+                  ELSE LET v == CHOOSE x \in S : TRUE IN
+                       SeedStat([g \in DOMAIN s |-> IF g \in {"all", RoleOf(v), IF RoleOf(v) = "h" THEN "house" ELSE "chamber"}
+                                                    THEN <<s[g][1], s[g][2], s[g][3], s[g][4] + SeedVal.stk, s[g][5] + SeedVal.tok, s[g][6] + 1>>
+                                                    ELSE s[g]], S \ {v})
+
+Init == /\ vo = [v \in Vals |-> IF Seeded THEN SeedVal ELSE NoVal]
+        /\ stat = (IF Seeded THEN SeedStat(ZeroStat, Vals) ELSE ZeroStat)
+        /\ index = (IF Seeded THEN Vals ELSE {}) /\ tix = {} /\ dirty = (IF Seeded THEN Vals ELSE {})
+        /\ acct = [a \in Accts |-> IF Seeded /\ a = 1 THEN [dbal |-> 7 * Cardinality(Vals), to |-> Vals] ELSE [dbal |-> 0, to |-> {}]]
+        /\ pend = (IF Seeded THEN {1} ELSE {}) /\ blobs = {{}}
+        /\ vj = <<>> /\ aj = <<>> /\ revs = <<>> /\ nextId = 0 /\ failed = FALSE
+        /\ hist = (IF Seeded THEN Prelude ELSE <<>>)
 
 Rec(name, v, a, d, id, on) == [op |-> name, v |-> v, a |-> a, d |-> d, id |-> id, on |-> on]
 \* generated behaviours start with a creation (everything else is a no-op on the empty set)
@@ -419,6 +440,10 @@ NextRemove ==
    \/ \E a \in Accts, v \in Vals : Delegate(a, v, 7)
    \/ SnapRev \/ Root \/ Reload
 
+NextDeleg3 ==    \* one delegator delegating to every validator: full withdrawals, reverted / committed / on a copy
+   \/ \E v \in Vals : Undelegate(1, v, 7) \/ Delegate(1, v, 7)
+   \/ SnapRev \/ Root \/ Reload \/ CopyStep
+
 NextRich ==
    \/ \E v \in Vals :
         \/ \E t \in {7, 15, 25} : Create(v, t)
@@ -433,7 +458,7 @@ NextRich ==
 
 Next == /\ Bounded
         /\ CASE Alpha = "m" -> NextM [] Alpha = "malias" -> NextMAlias [] Alpha = "g1" -> NextG1 [] Alpha = "g1b" -> NextG1b
-             [] Alpha = "remove" -> NextRemove [] OTHER -> NextRich
+             [] Alpha = "remove" -> NextRemove [] Alpha = "deleg3" -> NextDeleg3 [] OTHER -> NextRich
 Spec == Init /\ [][Next]_vars
 
 \* ---------------------------------------------------------------- property layer (over the observable projection)
